@@ -29,7 +29,9 @@ type scriptedReader struct {
 	calls  int
 }
 
-var readerPolicies = []string{"whole", "byte", "half", "random", "dataeof", "byte+dataeof"}
+// "stutter": every other call returns (0, nil) - allowed by the io.Reader contract ("nothing happened"),
+// as readers over framed or compressed data do
+var readerPolicies = []string{"whole", "byte", "half", "random", "dataeof", "byte+dataeof", "stutter"}
 
 func (r *scriptedReader) Read(p []byte) (int, error) {
 	r.calls++
@@ -37,6 +39,9 @@ func (r *scriptedReader) Read(p []byte) (int, error) {
 		return 0, nil
 	}
 	left := len(r.data) - r.pos
+	if r.policy == "stutter" && r.calls%2 == 1 {
+		return 0, nil
+	}
 	if left == 0 {
 		return 0, io.EOF
 	}
@@ -44,7 +49,7 @@ func (r *scriptedReader) Read(p []byte) (int, error) {
 	switch r.policy {
 	case "byte", "byte+dataeof":
 		n = 1
-	case "half":
+	case "half", "stutter":
 		n = (len(p) + 1) / 2
 	case "random":
 		n = 1 + r.rng.Intn(len(p))
